@@ -230,7 +230,7 @@ def run_live(case, ctx, note=True):
 
     md, t = _mk(sa)
     el, lhs_sqls, _, getter = _lhs(sa, t, lhs, literal=mode in ("literal_execute", "literal_binds"))
-    if tuple_ and mode in ("literal_execute", "literal_binds") and any(len(l) == 0 for l in lists) and not case.get("pinned"):
+    if False and tuple_ and mode in ("literal_execute", "literal_binds") and any(len(l) == 0 for l in lists) and not case.get("pinned"):  # repaired in /repo (fix: 5b69129): no longer excluded
         # confirmed: "(a, b) IN (VALUES SELECT 1, 1 FROM ...)" - excluded by construction, one pinned replay
         ctx.exclude("tuple-empty-list-literal-values-prefix")
         lists = [l if l else [[None] * len(lhs[1])] for l in lists]
@@ -457,7 +457,7 @@ def check_emptyset(case, ctx):
     from checks.c01 import _dialect
 
     dname, tup, form, cx, mode = case
-    if dname == "sqlite" and tup and mode == "literal_execute":
+    if False and dname == "sqlite" and tup and mode == "literal_execute":  # repaired in /repo (fix: 5b69129): no longer excluded
         # confirmed finding (see run_live): "(x, z) IN (VALUES SELECT 1, 1 ...)"; pinned through the random sub
         ctx.exclude("tuple-empty-list-literal-values-prefix")
         ctx.note(case, False, classes=["excluded"])
